@@ -622,6 +622,10 @@ class BuiltinsMixin:
         self.store_lvalue(s, bm.lv, self.set_add(r, args[0]))
         return [(s, Val(NONE, None))]
 
+    def m_set_clear(self, s, r, args, kw, node, bm):
+        self.store_lvalue(s, bm.lv, self.empty_set(r.ty.args[0]) if r.ty.kind == "set" else r)
+        return [(s, Val(NONE, None))]
+
     def m_set_update(self, s, r, args, kw, node, bm):
         outs = self.m_set_union(s, r, args, kw, node, bm)
         res = []
